@@ -78,10 +78,10 @@ impl Command for AppendCommand {
         // Merge user metadata if provided
         if let Some(user_value) = user_meta {
             let user_json = util::value_to_json(&user_value);
-            if let JsonValue::Object(mut base_obj) = final_meta {
-                if let JsonValue::Object(user_obj) = user_json {
-                    base_obj.extend(user_obj); // Merge user metadata into base
-                    final_meta = JsonValue::Object(base_obj);
+            if let JsonValue::Object(base_obj) = final_meta {
+                if let JsonValue::Object(mut user_obj) = user_json {
+                    user_obj.extend(base_obj); // Merge: the base stamps win over user keys
+                    final_meta = JsonValue::Object(user_obj);
                 } else {
                     return Err(ShellError::TypeMismatch {
                         err_message: "Meta must be a record".to_string(),
